@@ -41,8 +41,8 @@ func (p *ProposerSlashing) HashTreeRoot(hFn tree.HashFn) common.Root {
 }
 
 var ProposerSlashingType = ContainerType("ProposerSlashing", []FieldDef{
-	{"header_1", common.SignedBeaconBlockHeaderType},
-	{"header_2", common.SignedBeaconBlockHeaderType},
+	{"signed_header_1", common.SignedBeaconBlockHeaderType},
+	{"signed_header_2", common.SignedBeaconBlockHeaderType},
 })
 
 func BlockProposerSlashingsType(spec *common.Spec) ListTypeDef {
